@@ -214,6 +214,7 @@ type vgFilter struct {
 	includes      []string
 	excludes      []string
 	noKnownExt    bool // WithExcludeKnownExtensions
+	copying       bool // without WithMutateInPlace
 	allowImported bool // WithAllowIncludeOfImportedType
 }
 
@@ -287,7 +288,10 @@ func (f *vgFilter) conflict() bool {
 }
 
 func (f *vgFilter) options() []ImageFilterOption {
-	options := []ImageFilterOption{WithExcludeCustomOptions(), WithMutateInPlace()}
+	options := []ImageFilterOption{WithExcludeCustomOptions()}
+	if !f.copying {
+		options = append(options, WithMutateInPlace())
+	}
 	if len(f.includes) > 0 {
 		options = append(options, WithIncludeTypes(f.includes...))
 	}
@@ -479,10 +483,14 @@ func (f *vgFilter) checkUnchanged(result []*descriptorpb.FileDescriptorProto) {
 	}
 }
 
-func vgRunFilterLemma(familyIndex int) {
+func vgRunFilterLemma(familyIndex int) { vgRunFilterLemmaMode(familyIndex, false) }
+
+// vgRunFilterLemmaMode: copying=false filters in place (WithMutateInPlace); copying=true is the default mode of
+// FilterImage, which must leave the input image untouched (shallowClone is modelled by the engine, see stubs).
+func vgRunFilterLemmaMode(familyIndex int, copying bool) {
 	fam := vgBuildFamily(familyIndex)
-	pristine := vgBuildFamily(familyIndex) // FilterImage mutates in place: keep an untouched twin to compare against
-	filter := &vgFilter{fam: pristine, table: vgSymbols(pristine.spec.files)}
+	pristine := vgBuildFamily(familyIndex) // an untouched twin to compare against
+	filter := &vgFilter{fam: pristine, table: vgSymbols(pristine.spec.files), copying: copying}
 	filter.includes = vgPickNames(fam.candidates, verifParam("NI"))
 	filter.excludes = vgPickNames(fam.candidates, verifParam("NE"))
 	verifAssume(len(filter.includes)+len(filter.excludes) > 0)
@@ -529,6 +537,19 @@ func vgRunFilterLemma(familyIndex int) {
 		return
 	}
 	verifCover("filtered")
+	if copying {
+		// the input image is not modified: same files, and every descriptor, list and source location (path, span,
+		// comments) reads exactly as in the untouched twin
+		verifAssert(vgSameStrings(vgDeepFingerprint(image), vgDeepFingerprint(vgNewImage(pristine.spec))), "copying mode leaves the input image unchanged")
+		// and filtering the same input again gives the same result
+		second, err2 := FilterImage(image, filter.options()...)
+		verifAssert(err2 == nil, "filtering the same input twice succeeds twice")
+		if err2 == nil {
+			verifAssert(vgSameStrings(vgDeepFingerprint(second), vgDeepFingerprint(got)), "filtering the same input twice gives the same result")
+			verifAssert(vgSameStrings(vgDeepFingerprint(image), vgDeepFingerprint(vgNewImage(pristine.spec))), "the second run leaves the input image unchanged as well")
+		}
+		verifCover("copying mode")
+	}
 	if verifKnown("F6c-map-value-excluded", filter.classMapValueExcluded()) {
 		return
 	}
@@ -747,3 +768,9 @@ func VerifLemma_C12C_FilterService()    { vgRunFilterLemma(1) }
 func VerifLemma_C12C_FilterExtensions() { vgRunFilterLemma(2) }
 func VerifLemma_C12C_FilterTypeless()   { vgRunFilterLemma(3) }
 func VerifLemma_C12C_FilterCrossFile()  { vgRunFilterLemma(4) }
+
+func VerifLemma_C12C_CopyNested()     { vgRunFilterLemmaMode(0, true) }
+func VerifLemma_C12C_CopyService()    { vgRunFilterLemmaMode(1, true) }
+func VerifLemma_C12C_CopyExtensions() { vgRunFilterLemmaMode(2, true) }
+func VerifLemma_C12C_CopyTypeless()   { vgRunFilterLemmaMode(3, true) }
+func VerifLemma_C12C_CopyCrossFile()  { vgRunFilterLemmaMode(4, true) }
